@@ -139,22 +139,14 @@ def run (cfg : Cfg) (hash : α → Nat) : State → List Nat → List (Elem α) 
 
 /-! ## RoutingEnd (route.rs) -/
 
-/-- outcome of `RoutingEnd::setup_endpoints` (route.rs:157-183) -/
-inductive RouteSetup where
-  /-- one group of (sorted) sender indexes per route, in route order -/
-  | ok (groups : List (List Nat))
-  /-- `block_map.remove(&block_id).expect("scheduler connection missing for RoutingEnd")`:
-      a route towards a block without (non-fragile) connection, or the second route to a block -/
-  | missingConnection
-  /-- `assert!(block_map.is_empty())`: a connected block without route -/
-  | unroutedBlock
-  deriving Repr, DecidableEq, Inhabited
-
-/-- `setup_endpoints` on the block ids of the sorted senders -/
-def routeSetup (routes : List Nat) (bs : List Nat) : RouteSetup :=
-  if routes.any (fun b => (indexesOf bs b).isEmpty) || !routes.Nodup then .missingConnection
-  else if (blocksOf bs).any (fun b => !routes.contains b) then .unroutedBlock
-  else .ok (routes.map (indexesOf bs))
+/-- `setup_endpoints`: one endpoint per route, in route order, with the (sorted) senders towards
+    the route's block. `none` = a route without connection or a connection without route (panic). -/
+def routeGroups (routes : List Nat) (ss : List Endpoint) : Option (List (List Nat)) :=
+  let bs := ss.map (·.coord.block)
+  if routes.all (fun b => !(indexesOf bs b).isEmpty) && (blocksOf bs).all routes.contains
+      && routes.Nodup then
+    some (routes.map (indexesOf bs))
+  else none
 
 /-- data arm of `RoutingEnd::next` (route.rs:240-256): the first matching route only,
     `indexes[index]` **without** modulo (an index panic — `none` — if `index ≥ len`; `route()`
@@ -164,23 +156,6 @@ def routeData (gs : List (List Nat)) (accept : List Bool) (index : Nat) : Option
   | none => some []
   | some (g, _) => (g[index]?).map fun i => [i]
 
-/-- `RoutingEnd::next` for one element. `accept a` = the verdict of every route's filter on `a`
-    (in route order), `index` = `next_strategy.index(item)`. No feedback exception, no ignored
-    destinations. -/
-def routeStep (accept : α → List Bool) (index : α → Nat) (st : State) (e : Elem α) :
-    State × List (Nat × Elem α) :=
-  if st.panicked then (st, []) else
-  let targets : Option (List Nat) :=
-    match e with
-    | .wm _ | .far | .term => some (st.groups.flatMap id)
-    | .item a | .ts a _ => routeData st.groups (accept a) (index a)
-    | .flushBatch => some []
-  match targets with
-  | none => ({ st with panicked := true }, [])
-  | some ts =>
-    if st.closed && !ts.isEmpty then ({ st with panicked := true }, [])
-    else
-      let st' := if e.isTerm then { st with closed := true } else st
-      (st', ts.map fun i => (i, e))
+/- The step function of `RoutingEnd` built on `routeGroups`/`routeData` is `Model/Route.lean` (C09). -/
 
 end Noir.Router
